@@ -17,7 +17,7 @@ import (
 )
 
 var enumAlphabet = []string{"", " ", "a", "A", "b", "foo", "Foo", "FOO", "foo1", "Foo1", "1", "1a", "2", "-", "a-b", "a_b", "a b", "a.b", "func", "type", "nil", "true", "string",
-	"empty", "Empty", "_empty", "_1", "_12", "é", "日本", "a\"b", "a\\tb", "a\tb", "line\nbreak", "$", "+1", "-1", "x.y", "a+b", "&", "A B"}
+	"empty", "Empty", "_empty", "_1", "_12", "Kilo_Watt", "KiloWatt", "NOT_FOUND", "NOTFOUND", "é", "日本", "a\"b", "a\\tb", "a\tb", "line\nbreak", "$", "+1", "-1", "x.y", "a+b", "&", "A B"}
 
 func coqTable(m map[string]string) string {
 	ks := make([]string, 0, len(m))
@@ -160,7 +160,9 @@ func runC11(r *Report, rng *rand.Rand, thorough bool) {
 	}
 	var lists [][]string
 	fixed := [][]string{{"foo1", "Foo", "foo"}, {"", " "}, {"a-b", "a_b", "a b"}, {"1", "1a", "-1", "+1"}, {"func", "type", "nil"}, {"a\"b", "a\\tb", "line\nbreak"}, {"a", "a", "b"},
-		{"empty", ""}, {"Empty", "", "x"}, {"_empty", "on", ""}, {"_1", "b"}, {"_12", "b"}}
+		{"empty", ""}, {"Empty", "", "x"}, {"_empty", "on", ""}, {"_1", "b"}, {"_12", "b"},
+		// names that are exported Go identifiers already and meet after camel-casing
+		{"Kilo_Watt", "KiloWatt", "Joule"}, {"NOT_FOUND", "NOTFOUND"}}
 	lists = append(lists, fixed...)
 	for len(lists) < nLists {
 		n := 1 + rng.Intn(5)
@@ -253,7 +255,7 @@ func runC11(r *Report, rng *rand.Rand, thorough bool) {
 		nDocs = 600
 	}
 	positions := []string{"component", "property", "parameter", "array-item", "request-body", "response"}
-	varNamePool := []string{"Empty", "None", "First", "first", "Second", "A", "B", "a-b", "Unset", "_1"}
+	varNamePool := []string{"Empty", "None", "First", "first", "Second", "A", "B", "a-b", "Unset", "_1", "Low_Level", "LowLevel"}
 	nDocs += 3 * len(fixed) // every fixed list under every option
 	for d := 0; d < nDocs; d++ {
 		vals := lists[rng.Intn(len(lists))]
